@@ -1,7 +1,8 @@
 """Apply a `git diff` style unified patch to source texts in memory (for the self-test overlays).
 
-apply_patch(patch_text, read) -> {relpath: new text} or None when a hunk does not apply to the current text
-(context / removed lines differ) or the patch creates / deletes / renames files (not representable as an overlay)."""
+apply_patch(patch_text, read) -> {relpath: new text, or None for a file the patch deletes / moves away} or None when a hunk does not
+apply to the current text (context / removed lines differ) or the patch is binary.  New files, deleted files and renames (with or without
+content changes) are supported; an overlay value of None means "this path no longer exists"."""
 import re
 
 _HUNK = re.compile(r'^@@ -(\d+)(?:,(\d+))? \+(\d+)(?:,(\d+))? @@')
@@ -15,11 +16,18 @@ def parse(patch_text):
     while i < len(lines):
         ln = lines[i]
         if ln.startswith('diff --git '):
-            cur = {'old': None, 'new': None, 'hunks': [], 'special': False}
+            cur = {'old': None, 'new': None, 'hunks': [], 'special': False, 'rename_from': None, 'rename_to': None, 'newfile': False, 'deleted': False}
             files.append(cur)
-        elif cur is not None and (ln.startswith('new file mode') or ln.startswith('deleted file mode') or ln.startswith('rename from')
-                                  or ln.startswith('Binary files') or ln.startswith('GIT binary patch')):
+        elif cur is not None and (ln.startswith('Binary files') or ln.startswith('GIT binary patch')):
             cur['special'] = True
+        elif cur is not None and ln.startswith('new file mode'):
+            cur['newfile'] = True
+        elif cur is not None and ln.startswith('deleted file mode'):
+            cur['deleted'] = True
+        elif cur is not None and ln.startswith('rename from '):
+            cur['rename_from'] = ln[len('rename from '):].strip()
+        elif cur is not None and ln.startswith('rename to '):
+            cur['rename_to'] = ln[len('rename to '):].strip()
         elif cur is not None and ln.startswith('--- ') and not cur['hunks']:
             cur['old'] = ln[4:].strip()
         elif cur is not None and ln.startswith('+++ ') and not cur['hunks']:
@@ -47,15 +55,33 @@ def parse(patch_text):
 def apply_patch(patch_text, read):
     out = {}
     for f in parse(patch_text):
-        if f['special'] or not f['old'] or not f['new'] or f['old'] == '/dev/null' or f['new'] == '/dev/null':
+        if f['special']:
             return None
+        if f['rename_from'] and f['rename_to'] and not f['hunks']:
+            try:
+                out[f['rename_to']] = read(f['rename_from'])     # a pure move
+            except OSError:
+                return None
+            out[f['rename_from']] = None
+            continue
+        if not f['old'] or not f['new']:
+            continue            # e.g. a mode change only
+        if f['new'] == '/dev/null' or f['deleted']:
+            out[re.sub(r'^[ab]/', '', f['old'])] = None
+            continue
         rel = re.sub(r'^[ab]/', '', f['new'])
-        if re.sub(r'^[ab]/', '', f['old']) != rel:
-            return None
-        try:
-            src = read(rel)
-        except OSError:
-            return None
+        if f['old'] == '/dev/null' or f['newfile']:
+            src = ''
+        else:
+            src_rel = f['rename_from'] or re.sub(r'^[ab]/', '', f['old'])
+            if src_rel != rel and not f['rename_from']:
+                return None
+            try:
+                src = read(src_rel)
+            except OSError:
+                return None
+            if src_rel != rel:
+                out[src_rel] = None
         trailing_nl = src.endswith('\n')
         sl = src.split('\n')
         if trailing_nl:
